@@ -401,6 +401,11 @@ func classifyUse(id *ast.Ident, path []ast.Node, local map[string]*ast.FuncDecl,
 			}
 			return false, "" // used as an index bound
 		case *ast.IndexExpr:
+			if i > 0 && p.X == child {
+				if u, ok := path[i-1].(*ast.UnaryExpr); ok && u.Op == token.AND {
+					return true, "address of an element taken (unsafe re-slicing)"
+				}
+			}
 			return false, "" // element read (or used as an index)
 		case *ast.BinaryExpr:
 			return false, "" // comparison (== nil, != nil)
